@@ -24,7 +24,23 @@ def run_property(prop, tier, prog=None, write=True):
     t0 = time.time()
     mod = importlib.import_module("sa.props.%s" % prop.lower())
     ctx = core.Ctx(prop, tier, prog or Program())
-    mod.run(ctx)
+    try:
+        mod.run(ctx)
+    except AnalysisError as e:
+        # A rule could not find the construct it reasons about.  On code that is the confirmed baseline (or proven
+        # equivalent to it) that means the checker is broken: exit 2.  On code that was changed and is NOT proven to
+        # behave as before, the obligation simply cannot be discharged any more - that is an alarm, not a tool failure.
+        changed = changed_unproven(ctx.prog)
+        hit = [q for q in changed if e.site and (str(e.site).startswith(q) or q.startswith(str(e.site)) or str(e.site).split(".")[-1] == q.split(".")[-1])]
+        if not hit and "instance floor" in str(e.reason) and changed:
+            hit = sorted(changed)
+        if not hit:
+            raise
+        f = ctx.prog.functions.get(hit[0])
+        ctx.ob(e.rule or prop, f if f is not None else hit[0],
+               "the construct this rule reasons about is still there (the function was changed and is not proven equivalent to its confirmed version)",
+               False, construct="anchor: %s" % e.reason, detail="%s: %s; changed, unproven: %s" % (e.site, e.reason, ", ".join(q.split("dateutil.")[-1] for q in hit[:3])),
+               analysis="anchor lookup on a changed function + equivalence prover verdict")
     extra = None
     fails = []
     if tier == "thorough" and write:
@@ -46,6 +62,12 @@ def run_property(prop, tier, prog=None, write=True):
             print("ANALYSIS-ERROR property=%s self-validation: %s" % (prop, f_))
         return 2
     return rc
+
+
+def changed_unproven(prog):
+    """Qualified names of functions whose source differs from the confirmed baseline and which the prover did not
+    show equivalent to it (sa/equiv.py)."""
+    return set(q for k, q, _ in getattr(prog, "canon_log", []) if k == "E-no")
 
 
 def main(argv):
